@@ -21,6 +21,8 @@ func init() {
 			{"C15.R4", "q", "home = path(id); paths derive from home", c15r4},
 			{"C15.R5", "q", "single writers of BucketID / TreeDepth", c15r5},
 			{"C15.R6", "q", "listing dispatch and READY-only aggregation", c15r6},
+			{"C15.R7", "q", "route table decodes every bucket id", c15r7},
+			{"C15.R8", "q", "who may mark a bucket as served", c15r8},
 			{"C08.R4", "q", "shared: upper tree refreshed from READY buckets, reset on every refresh", c08r4},
 		},
 	})
@@ -427,5 +429,93 @@ func c15r6(c *Ctx) {
 			}
 		}
 		c.check(ok && gate, R, f.Key+": leaf i of the upper tree = root of READY bucket i", f.Pos(), "buckets[offset], READY only", "the upper tree's leaf is not taken from the READY bucket with the same index")
+	}
+}
+
+// c15r7: bucket ids in the route table are hex numbers up to ff.
+func c15r7(c *Ctx) {
+	const R = "C15.R7"
+	f := c.fn(R, "config.Server.Decode")
+	if f == nil {
+		return
+	}
+	info := f.Info()
+	n := 0
+	for _, call := range f.CallsTo("strconv.ParseInt", "strconv.ParseUint") {
+		if len(call.Expr.Args) != 3 {
+			continue
+		}
+		n++
+		base, _ := prog.ConstInt(info, call.Expr.Args[1])
+		bits, _ := prog.ConstInt(info, call.Expr.Args[2])
+		need := int64(9) // signed: 0..255 needs 9 bits
+		if call.Key == "strconv.ParseUint" {
+			need = 8
+		}
+		c.check(base == 16 && (bits == 0 || bits >= need), R, f.Key+": bucket ids parsed as hex wide enough for 00..ff", call.Pos(), "base 16, bitSize "+itoa(int(bits)),
+			"bucket ids are parsed with base "+itoa(int(base))+" / bitSize "+itoa(int(bits))+": ids from 0x80 (resp. 0x100) up fail to parse, Decode returns early and the failing and all later buckets of that server stay unserved (their keys miss, and keys of bucket 0 are stored instead)")
+	}
+	if n == 0 {
+		c.undec(R, f.Key, "no ParseInt/ParseUint call found")
+	}
+}
+
+// c15r8: the served set (BucketsStat) is written only when loading the route
+// table and by the hot-reload; discovering directories on disk must not mark a bucket as served.
+func c15r8(c *Ctx) {
+	const R = "C15.R8"
+	allowed := map[string]string{
+		"store.HStore.ChangeRoute":           "hot reload of the route table",
+		"config.RouteTable.GetDBRouteConfig": "route table → per-server config",
+	}
+	n := 0
+	for _, f := range c.P.SortedFuncs() {
+		info := f.Info()
+		ast.Inspect(f.Decl.Body, func(x ast.Node) bool {
+			as, ok := x.(*ast.AssignStmt)
+			if !ok {
+				return true
+			}
+			for _, l := range as.Lhs {
+				e := prog.Unparen(l)
+				if ix, isI := e.(*ast.IndexExpr); isI {
+					e = prog.Unparen(ix.X)
+				}
+				if k, _ := prog.FieldOf(info, e); k == "config.DBRouteConfig.BucketsStat" {
+					n++
+					c.Funcs[f.Key] = true
+					_, ok := allowed[f.Key]
+					// make() of the slice itself in config code is fine
+					if f.Pkg.Name == "config" {
+						ok = true
+					}
+					c.check(ok, R, f.Key+": writes the served-bucket table", c.pos(as), "route loading / ChangeRoute", f.Key+" writes Conf.BucketsStat: the set of buckets this server serves must come from the route table only — marking a bucket whose directory merely exists on disk makes NewHStore open and serve a bucket that belongs to another server")
+				}
+			}
+			return true
+		})
+	}
+	if n == 0 {
+		c.undec(R, "config.DBRouteConfig.BucketsStat", "no writer found")
+	}
+	// NewHStore serves exactly the buckets with BucketsStat > 0
+	if f := c.fn(R, "store.NewHStore"); f != nil {
+		info := f.Info()
+		ok := false
+		ast.Inspect(f.Decl.Body, func(x ast.Node) bool {
+			if as, isA := x.(*ast.AssignStmt); isA && len(as.Lhs) == 1 && prog.IsField(info, "store.BucketStat.State")(as.Lhs[0]) && prog.ConstObjName(info, as.Rhs[0]) == "store.BUCKET_STAT_READY" {
+				for _, a := range f.GuardsAt(as) {
+					if a.Op == token.ILLEGAL && !a.Neg {
+						for _, s := range f.SourcesAt(a.X, as) {
+							if s.Expr != nil && prog.MentionsField(info, s.Expr, "config.DBRouteConfig.BucketsStat") {
+								ok = true
+							}
+						}
+					}
+				}
+			}
+			return true
+		})
+		c.check(ok, R, f.Key+": READY only for buckets the route table assigns", f.Pos(), "State = READY under BucketsStat[i] > 0", "NewHStore marks buckets READY independently of the route table")
 	}
 }
